@@ -263,16 +263,25 @@ func (m *BaseUndoLogManager) Undo(ctx context.Context, dbType types.DBType, xid 
 	if err != nil {
 		return err
 	}
+	// the connection goes back to the pool whatever happens
+	defer func() {
+		if cerr := conn.Close(); cerr != nil {
+			log.Errorf("conn close fail, xid: %s, branchID:%d err:%v", xid, branchID, cerr)
+		}
+	}()
 
 	tx, err := conn.BeginTx(ctx, &sql.TxOptions{})
 	if err != nil {
 		return err
 	}
+
+	// every exit that has not committed rolls the local transaction back; the error that caused
+	// the exit is what the caller gets (closing statements and rows must not replace it)
+	committed := false
 	defer func() {
-		if err != nil {
-			if err = tx.Rollback(); err != nil {
-				log.Errorf("rollback fail, xid: %s, branchID:%s err:%v", xid, branchID, err)
-				return
+		if !committed {
+			if rerr := tx.Rollback(); rerr != nil {
+				log.Errorf("rollback fail, xid: %s, branchID:%d err:%v", xid, branchID, rerr)
 			}
 		}
 	}()
@@ -283,9 +292,8 @@ func (m *BaseUndoLogManager) Undo(ctx context.Context, dbType types.DBType, xid 
 		return err
 	}
 	defer func() {
-		if err = stmt.Close(); err != nil {
-			log.Errorf("stmt close fail, xid: %s, branchID:%s err:%v", xid, branchID, err)
-			return
+		if cerr := stmt.Close(); cerr != nil {
+			log.Errorf("stmt close fail, xid: %s, branchID:%d err:%v", xid, branchID, cerr)
 		}
 	}()
 
@@ -295,9 +303,8 @@ func (m *BaseUndoLogManager) Undo(ctx context.Context, dbType types.DBType, xid 
 		return err
 	}
 	defer func() {
-		if err = rows.Close(); err != nil {
-			log.Errorf("rows close fail, xid: %s, branchID:%s err:%v", xid, branchID, err)
-			return
+		if cerr := rows.Close(); cerr != nil {
+			log.Errorf("rows close fail, xid: %s, branchID:%d err:%v", xid, branchID, cerr)
 		}
 	}()
 
@@ -384,9 +391,10 @@ func (m *BaseUndoLogManager) Undo(ctx context.Context, dbType types.DBType, xid 
 	}
 
 	if err = tx.Commit(); err != nil {
-		log.Errorf("[Undo] execute on fail, err: %v", err)
-		return nil
+		log.Errorf("[Undo] commit fail, err: %v", err)
+		return err
 	}
+	committed = true
 	return nil
 }
 
